@@ -240,3 +240,12 @@ Qed.
 
 Print Assumptions C16_source_drain_filter_next.
 Print Assumptions C16_source_drain_filter_next_is_the_model.
+
+(* the stores and increments of the translated extend_with ARE the model's state after a panicking
+   clone: k values written from element position pos give VecModel.write_all buf pos vals (the buffer
+   of VecPanic.resize_clone_panic) and k increments give its length *)
+Theorem C16_extend_with_trace_is_the_model : forall k base pos vals buf, List.length vals = k ->
+  apply_writes base (cloned k (base + N.of_nat pos)) vals buf = write_all buf pos vals /\
+  count "increment_len" (cloned k (base + N.of_nat pos)) = k.
+Proof. exact cloned_is_write_all. Qed.
+Print Assumptions C16_extend_with_trace_is_the_model.
